@@ -24,14 +24,15 @@ def obligations(tier, seed):
     for o in range(fk.N_OPS):
         for r in (((o + seed) % 2,) if tier == 'quick' else (0, 1)):
             for c in ([(0, 1, 3, 4, 5, 11)[(o + seed) % 6]] if tier == 'quick' else (0, 1, 3, 4, 5, 11)):
-                nested.append(fix(0, 4, o) + fix(4, 1, r) + fix(5, 4, c))
+                nested.append(fix(0, 4, o) + fix(4, 1, r) + fix(5, 4, c) + (['b21 == %s' % bool((o + seed) & 1)] if tier == 'quick' else []))
     return [
         dict(name='C07b.fold_int', fn='fold_int', timeout=t, shards=[['op == %d' % o, 'a_bool == %s' % ab] for o in range(fk.N_OPS) for ab in (True, False)],
              bounds='all 0 <= a,b < 10^6 (bitwise | ^ &: < 16, where z3 has to realise the operands), 13 operators, int/bool operands'),
         dict(name='C07b.fold_int.twin', fn='fold_int_twin', timeout=t, shards=[[]], expect='refuted', bounds='reachability twin: something is folded'),
         dict(name='C07.fold_pairs', fn='fold_pairs_b', timeout=t,
-             shards=[['b0 == %s' % bool(o & 1), 'b1 == %s' % bool(o & 2), 'b2 == %s' % bool(o & 4), 'b3 == %s' % bool(o & 8)] for o in range(fk.N_OPS)],
-             bounds='%d^2 operand pairs x 16 type-variant pairs x 13 operators' % fk.N_VALS),
+             shards=[['b0 == %s' % bool(o & 1), 'b1 == %s' % bool(o & 2), 'b2 == %s' % bool(o & 4), 'b3 == %s' % bool(o & 8)]
+                     + (['b16 == %s' % bool((o + seed) & 1)] if tier == 'quick' else []) for o in range(fk.N_OPS)],
+             bounds='%d^2 operand pairs x 16 type-variant pairs x 13 operators (quick: a seeded half of the variant pairs per operator)' % fk.N_VALS),
         dict(name='C07c.fold_nested', fn='fold_nested_b', timeout=t, shards=nested,
              bounds='13 inner x 13 outer operators x 8^3 operand triples x left/right nesting x contexts (quick: one context and one nesting direction per outer operator, rotating with the seed; thorough: 6 of the %d contexts, both directions)' % fk.N_CTX),
         dict(name='C07.number_print', fn='number_print_b', timeout=t, shards=[['b0 == True'], ['b0 == False']],
